@@ -141,4 +141,19 @@ theorem no_errCause_of_planOK {opts : PlanOptions} (hu : UniqueProducer g)
     cases h1
 
 end
+/-- Executable check of `UniqueProducer`. -/
+def upCheck (g : Graph) : Bool :=
+  (List.range g.nodes.length).all (fun p =>
+    match getOp g p with
+    | some op => (opOutputs op).all (fun v => sourceOf g v == some p)
+    | none => true)
+
+theorem uniqueProducer_of_upCheck {g : Graph} (h : upCheck g = true) : UniqueProducer g := by
+  intro p op v hop hv
+  unfold upCheck at h
+  rw [List.all_eq_true] at h
+  have := h p (List.mem_range.mpr (getOp_lt hop))
+  simp only [hop, List.all_eq_true] at this
+  simpa using this v hv
+
 end RtenVerif.Planner
